@@ -658,7 +658,7 @@ func VerifC28CutChunk() {
 	payload := verifBytes("payload", verifChoice("payloadLen", 3))
 	enc := verifGzip(payload)
 	verifAssert("C28-encoding-not-empty", len(enc) >= 3)
-	keep := verifChoice("keep", 3+len(payload)) // the model encoding has len(payload)+3 bytes, the real one more
+	keep := verifChoice("keep", 6+len(payload)) // the model encoding has len(payload)+6 bytes, the real one more
 	if keep >= len(enc) {
 		return
 	}
@@ -699,6 +699,92 @@ func VerifC28HeldChunk() {
 	verifAssert("C28-held-chunk-intact", intact)
 }
 
+// verifPatterned returns n bytes whose value depends on the position with period 251 (co-prime with
+// every power-of-two buffer size, so a block that is lost, repeated or moved shows in the content and
+// not only in the length); the bytes at the given positions (those inside the stream) are symbolic.
+func verifPatterned(n int, marks []int) []byte {
+	d := make([]byte, 0, n)
+	for i := 0; i < 251 && i < n; i++ {
+		d = append(d, byte(i*7+3))
+	}
+	for len(d) > 0 && len(d) < n {
+		k := len(d)
+		if k > n-len(d) {
+			k = n - len(d)
+		}
+		d = append(d, d[:k]...)
+	}
+	sym := verifBytes("marks", len(marks))
+	for i, m := range marks {
+		if m >= 0 && m < n {
+			d[m] = sym[i]
+		}
+	}
+	return d
+}
+
+// verifSizeCases: the chunk sizes and stream lengths of VerifC28SizeConstants. The size constants the
+// two types contain: internalChunkSize (the Chunker's read buffer; chunk sizes below it shrink the
+// buffer, chunk sizes above it make Next fill one chunk with several reads) - the Dechunker has none
+// of its own, it copies a chunk's payload with io.Copy. Chunk sizes: one below, at, one above the
+// constant, twice the constant and one above that. Stream lengths relative to the chunk size: one
+// byte short of a chunk, exactly a chunk, a chunk and a byte, two chunks and three bytes (for the
+// chunk sizes of 2 MiB and more: a chunk, 1 MiB and three bytes).
+func verifSizeCases() (sizes []int64, lens func(size int64) []int) {
+	if verifTier() == 1 {
+		return []int64{internalChunkSize - 1, internalChunkSize, internalChunkSize + 1, 2 * internalChunkSize, 2*internalChunkSize + 1},
+			func(size int64) []int {
+				long := 2*int(size) + 3
+				if long > 3*internalChunkSize+4 {
+					// (the engine holds at most 4 Mi elements in one allocation)
+					long = int(size) + internalChunkSize + 3
+				}
+				return []int{int(size) - 1, int(size), int(size) + 1, long}
+			}
+	}
+	return []int64{internalChunkSize, internalChunkSize + 1},
+		func(size int64) []int { return []int{int(size) + 1} }
+}
+
+// VerifC28SizeConstants: the round trip with chunk sizes below, at and above the size constant of the
+// code (internalChunkSize), real megabyte streams. The statement's oracle: the chunks are one
+// numbered stream whose payloads concatenate to the input, and the reassembled file equals the input.
+// (How many bytes a single chunk carries is not part of the statement: above internalChunkSize a
+// chunk may carry more than chunkSize bytes.)
+func VerifC28SizeConstants() {
+	verifPanicsAreViolations()
+	sizes, lens := verifSizeCases()
+	size := sizes[verifChoice("chunkSize", len(sizes))]
+	ls := lens(size)
+	n := ls[verifChoice("len", len(ls))]
+	data := verifPatterned(n, []int{0, internalChunkSize - 1, internalChunkSize, int(size) - 1, int(size), n - 1})
+	orig := append([]byte{}, data...)
+
+	c := NewChunker(bytes.NewReader(data), size)
+	chunks := verifSplit(c, n/int(size)+2)
+	payloads := verifCheckChunks(chunks, orig, size, false)
+	for _, p := range payloads {
+		if len(p) > internalChunkSize {
+			verifReach("chunk-payload-above-internal-buffer")
+		}
+		if len(p) == internalChunkSize {
+			verifReach("chunk-payload-equals-internal-buffer")
+		}
+	}
+	if size > internalChunkSize {
+		verifReach("chunk-size-above-internal-buffer")
+	}
+	_, nRead, _ := c.Counts()
+	verifAssert("C28-counts-bytes-read", nRead == int64(n))
+
+	dir, cleanup := verifDir()
+	defer cleanup()
+	mgr, err := NewDechunkerManager(dir)
+	verifAssert("C28-manager-created", err == nil && mgr != nil)
+	verifDeliverAll(mgr, dir, chunks, orig)
+	mgr.Close()
+}
+
 // VerifC28Twin: vacuity guard – same shape as the round trip, final claim is false.
 func VerifC28Twin() {
 	data := verifBytes("data", 3)
@@ -723,7 +809,7 @@ func VerifC28Twin() {
 // ---------------------------------------------------------------------------
 // engine-only models (spec.json "models"); never called natively
 
-// gzip: identity with framing. A member is: magic, payload length, payload, end marker. Like the
+// gzip: identity with framing. A member is: magic, payload length (4 bytes), payload, end marker. Like the
 // real writer the model emits its header (the magic) with the first Write and may hold everything
 // else back until Close. Like the real reader the model checks the header when it is created,
 // rejects a truncated member or a wrong end marker while it is read, and reads concatenated
@@ -802,10 +888,11 @@ func verifGzWriterClose(z *gzip.Writer) error {
 	if err := verifGzWriterHeader(st); err != nil {
 		return err
 	}
-	if len(st.buf) > 255 {
+	n := len(st.buf)
+	if n >= 1<<31 {
 		return verifErrGzTooLong
 	}
-	rest := append(append([]byte{byte(len(st.buf))}, st.buf...), verifGzEnd)
+	rest := append(append([]byte{byte(n >> 24), byte(n >> 16), byte(n >> 8), byte(n)}, st.buf...), verifGzEnd)
 	_, err := st.w.Write(rest)
 	return err
 }
@@ -834,11 +921,12 @@ func verifGzReaderRead(z *gzip.Reader, p []byte) (int, error) {
 			return 0, st.err
 		}
 		if st.needLen {
-			if _, err := io.ReadFull(st.r, one[:]); err != nil {
+			var l [4]byte
+			if _, err := io.ReadFull(st.r, l[:]); err != nil {
 				st.err = io.ErrUnexpectedEOF
 				continue
 			}
-			st.left = int(one[0])
+			st.left = int(l[0])<<24 | int(l[1])<<16 | int(l[2])<<8 | int(l[3])
 			st.needLen = false
 		}
 		if st.left > 0 {
@@ -927,6 +1015,8 @@ func verifFileReadFrom(f *os.File, r io.Reader) (int64, error) {
 	if h.closed {
 		return 0, verifErrFileClosed
 	}
+	// (the file reads with buffers of 4, 8, 16 .. 65536 bytes: short ones first so that small payloads
+	// arrive in several pieces, long ones later so that megabyte payloads take few reads)
 	var total int64
 	buf := make([]byte, 4)
 	for {
@@ -940,6 +1030,9 @@ func verifFileReadFrom(f *os.File, r io.Reader) (int64, error) {
 		}
 		if err != nil {
 			return total, err
+		}
+		if k == len(buf) && len(buf) < 1<<16 {
+			buf = make([]byte, 2*len(buf))
 		}
 	}
 }
